@@ -70,10 +70,12 @@ func NewReloadableOrchestrator(downstream base.Orchestrator, initiateReload Init
 
 // NewSink creates a new reloadable sink for an input source (e.g. incoming TCP connection)
 func (orc *ReloadableOrchestrator) NewSink(clientAddress string, clientNumber base.ClientNumber) base.BufferReceiverSink {
-	newDownstream := orc.downstream.NewSink(clientAddress, clientNumber)
-
 	lockT := orc.downstreamMutex.RLock() // only read-lock since we assume clientNumber is unique and nobody else is accessing it
 	defer orc.downstreamMutex.RUnlock(lockT)
+
+	// the downstream sink must be created under the lock: a reload in between would shut down the orchestrator
+	// that created it, and the stale sink would then be stored and used
+	newDownstream := orc.downstream.NewSink(clientAddress, clientNumber)
 
 	if orc.downstreamSinks[clientNumber] != nil {
 		orc.logger.WithFields(logger.Fields{
